@@ -154,7 +154,9 @@ theorem fireTimer_FOK (w : World) (t : Timer × TimerId) (h : FOK w) : FOK (fire
 theorem evInbound_FOK {w : World} {p : World × Option Err} (h : FOK w) (hE : evInbound w = some p) : FOK p.1 := by
   unfold evInbound at hE
   split at hE
-  · cases hE; exact addConn_FOK _ _ _ h
+  · split at hE
+    · cases hE; exact addConn_FOK _ _ _ h
+    · cases hE; exact h.of_eq rfl rfl
   · cases hE
 
 theorem evConnected_FOK {w : World} {k : Nat} {p : World × Option Err} (h : FOK w)
@@ -184,9 +186,11 @@ theorem step_FOK (w : World) (e : Event) (h : FOK w) : FOK (step w e) := by
     | some p => exact evInbound_FOK h hE
   | connect =>
     simp only [step]
-    cases hE : evConnect w with
-    | none => exact h
-    | some w' => exact evConnect_FOK h hE
+    split
+    · cases hE : evConnect w with
+      | none => exact h
+      | some w' => exact evConnect_FOK h hE
+    · exact h
   | connected k =>
     simp only [step]
     cases hE : evConnected w k with
@@ -210,6 +214,7 @@ theorem step_FOK (w : World) (e : Event) (h : FOK w) : FOK (step w e) := by
   | advance dt =>
     simp only [step, evAdvance]
     exact foldl_FOK fireTimer fireTimer_FOK _ _ (h.of_eq rfl rfl)
+  | setKey => exact h.of_eq rfl rfl
 
 theorem run_FOK (w : World) (evs : List Event) (h : FOK w) : FOK (run w evs) := by
   induction evs generalizing w with
